@@ -333,8 +333,10 @@ class MySQLConnection(DBAPI):
     def _queryAddLimitOffset(cls, query, start, end):
         if not start:
             return "%s LIMIT %i" % (query, end)
-        if not end:
-            return "%s LIMIT %i, -1" % (query, start)
+        if end is None:
+            # MySQL rejects a negative row count; the manual's idiom for
+            # "all rows from an offset" is the largest unsigned BIGINT
+            return "%s LIMIT %i, 18446744073709551615" % (query, start)
         return "%s LIMIT %i, %i" % (query, start, end - start)
 
     def createReferenceConstraint(self, soClass, col):
